@@ -27,8 +27,45 @@ type c18ForeignV struct { // foreign exception passed by value (comparable struc
 func (f c18ForeignV) Error() string { return f.s }
 func (f c18ForeignV) TypeId() int32 { return f.t }
 
+// an error of a NON-comparable dynamic type (a slice): errors.Is never applies == to it, and == between
+// two of them panics.  The backing array always has capacity >= 1 so that each value has an address.
+type c18ForeignS []byte
+
+func (f c18ForeignS) Error() string { return string(f) }
+
+// a == b as Go's errors package would evaluate it: false instead of a panic for non-comparable types
+func c18Same(a, b error) (eq bool) {
+	defer func() {
+		if recover() != nil {
+			eq = false
+		}
+	}()
+	return a == b
+}
+
+// object identity (used to find which object errors.Unwrap returned)
+func c18Ident(a, b error) bool {
+	if x, ok := a.(c18ForeignS); ok {
+		y, ok2 := b.(c18ForeignS)
+		return ok2 && reflect.ValueOf(x).Pointer() == reflect.ValueOf(y).Pointer()
+	}
+	return c18Same(a, b)
+}
+
+// errors.Is(a, b): 0/1, or 2 when it panics (it must not)
+func c18Is(a, b error) (r V) {
+	defer func() {
+		if recover() != nil {
+			r = I(2)
+		}
+	}()
+	return Bo(errors.Is(a, b))
+}
+
 func c18Kind(e error) int {
 	switch e.(type) {
+	case c18ForeignS:
+		return 7
 	case *thrift.TransportException:
 		return 2
 	case *thrift.ProtocolException:
@@ -88,6 +125,11 @@ func c18Build(nodes []V) []error {
 			} else {
 				e = &c18ForeignP{int32(AsInt(a[2])), string(AsBytes(a[3]))}
 			}
+		case 6:
+			t := AsBytes(a[1])
+			b := make([]byte, len(t), len(t)+1)
+			copy(b, t)
+			e = c18ForeignS(b)
 		default:
 			panic("c18: bad node")
 		}
@@ -114,7 +156,7 @@ func c18Observe(objs []error) V {
 		if u := errors.Unwrap(e); u != nil {
 			uw = -2
 			for k, o := range objs {
-				if o == u {
+				if c18Ident(o, u) {
 					uw = k
 					break
 				}
@@ -123,8 +165,8 @@ func c18Observe(objs []error) V {
 		obs = append(obs, Ls(I(c18Kind(e)), I(tid), I(has), Str(msg), Str(e.Error()), I(uw)))
 		var rs, ri []V
 		for _, o := range objs {
-			rs = append(rs, Bo(e == o))
-			ri = append(ri, Bo(errors.Is(e, o)))
+			rs = append(rs, Bo(c18Same(e, o)))
+			ri = append(ri, c18Is(e, o))
 		}
 		same = append(same, Ls(rs...))
 		is = append(is, Ls(ri...))
@@ -185,6 +227,17 @@ func init() {
 				}
 				g.Add("wrap-plain", hint([]V{Ls(I(0), Str(m))}, Ls(I(1), I(0))))
 			}
+			// non-comparable errors: prepended, wrapped, wrapped twice (two values of the same slice type meet
+			// in Is), as the target next to a protocol exception that wraps another one
+			for _, m := range msgs {
+				on := Ls(I(6), Str(m))
+				for _, p := range pres {
+					g.Add("prepend-opaque", hint([]V{on}, Ls(I(0), Str(p), I(0))))
+				}
+				g.Add("wrap-opaque", hint([]V{on}, Ls(I(1), I(0))))
+				g.Add("wrap-opaque-2", hint([]V{on, Ls(I(6), Str(m)), Ls(I(3), I(1), Str("x"), I(0), I(0))}, Ls(I(1), I(1))))
+				g.Add("wrap-opaque-chain", hint([]V{on, Ls(I(1), Str("ctx: "), I(0)), Ls(I(6), Str("other"))}, Ls(I(1), I(1))))
+			}
 			g.Add("nil", hint(nil, Ls(I(3), Str("x"))))
 			g.Add("nil", hint(nil, Ls(I(3), Str(""))))
 			g.Add("nil", hint(nil, Ls(I(4))))
@@ -201,9 +254,11 @@ func init() {
 					if g.R.Intn(12) == 0 {
 						t = int(int32(g.R.Uint32()))
 					}
-					k := g.R.Intn(8)
+					k := g.R.Intn(9)
 					proto := false
 					switch {
+					case k == 8:
+						nodes = append(nodes, Ls(I(6), Str(m)))
 					case k == 0:
 						nodes = append(nodes, Ls(I(0), Str(m)))
 					case k == 1 && i > 0:
